@@ -298,3 +298,8 @@ CLAIMED['C19']['text'] += (' END TO END (Proofs/NatDevice.v, NatE2E.v): for the 
     'Observations by witness: a rewrite that preserves the one\'s-complement sum is invisible to any checksum comparison; the mark sits on the first RESPONDING hop, so loss at that hop in a later round marks a second hop.')
 
 CLAIMED['C16']['text'] += ' The tracer app.rs start_tracer builds (hook: built, not spawned) is compared setting by setting (channel, strategy and state configuration) with the effective configuration on every case - the Builder chain of start_tracer is no longer transcribed in the harness.'
+
+CLAIMED['C12']['text'] += (' PAYLOAD SETTERS (Packet/Payload.v, Proofs/PayloadProofs.v, 29 theorems): the 13 set_payload functions write exactly at the RFC payload offset (4*IHL for IPv4, 4*data offset for TCP, never below 20; 40 / 8 / 4 elsewhere), '
+    'leave every header bit and everything behind the payload untouched (frame against all 88 header getters), commute with the header setters, fault iff the payload does not fit (the Rust code panics there), and are read back by payload() / payload_raw() '
+    '(with the exact cut at the IPv6 payload length, the extension-object length and the RFC 4884 length); agreement with the setters used by the C11 dispatch model; c12pay lines through the real setters. '
+    'Shown by witness: release-build Ipv6Packet::set_payload does not touch payload_length, so payload() of a fresh buffer returns nothing (the debug build asserts); not called by trippy-core.')
